@@ -45,7 +45,7 @@ func normEOL(s string) string {
 
 func runSSE(c *h.Ctx, r *h.Report) {
 	r.Rule = "events built from a payload grammar (empty, LF / CR / CRLF mixes, trailing newlines, lines that look like SSE fields or comments, leading spaces, U+2028/2029/0085, astral scalars), ids and types free of line breaks (with ':' and leading spaces), retry in {0, small, 2^64-1}: Event.String of /repo vs the Lean Event.encode; the bytes parsed by the harness's own W3C parser must give exactly one event equal to (id, type, retry, LF-normalised data) — the property's oracle — and the Lean reference parser must agree. Non-trivial = payload containing a line break or a field look-alike; distinct by content."
-	n := c.Scale(2000, 60000)
+	n := c.Scale(4000, 60000)
 	type ev struct {
 		e mercure.Event
 	}
@@ -124,7 +124,7 @@ func runHubFocus(c *h.Ctx, r *h.Report, focus string) {
 	case "payload":
 		r.Rule = "end to end: a live '*' subscriber, then 5-25 publishes with payloads / ids / types from the C12 grammar through POST form encoding, then a subscriber replaying from 'earliest' (Bolt: re-serialised through JSON), on both transports; every stream is parsed by the harness's own W3C parser and compared with the model (one event per update, decoding to what was published; ids echoed; generated ids are urn:uuid). Non-trivial = case with a payload containing CR or LF; distinct by content."
 	}
-	n := c.Scale(60, 3000)
+	n := c.Scale(150, 3000)
 	for i := 0; i < n; i++ {
 		rr := c.Rand.Fork()
 		cs := hubCase{ExactStream: true, Cfg: hubCfg{PubAlg: "HS256", SubAlg: "HS256", Anonymous: true, Bolt: i%2 == 0}}
